@@ -41,8 +41,9 @@ def build_jobs(tier, seed):
     if tier == 'thorough':
         for m in magics:
             jobs.append(J(H['detect'], dict(P, magic=m, read='sym',
-                                            overlays='single'),
-                          split_depth=10, budget=1500))
+                                            overlays='single',
+                                            max_sym_reads=4),
+                          split_depth=10))
             jobs.append(J(H['detect'], dict(P, magic=m, read=4096,
                                             overlays='single',
                                             allowed='sym'), split_depth=10))
@@ -64,7 +65,7 @@ def describe(tier):
         'are forks of the exploration)',
         'symbolic': 'stream length in [512, 40960] (plus the concrete small '
         'lengths 0,3,4,8,63,64,100,511), read size 4096 (thorough: symbolic '
-        '1..65536), allowed_formats = all, or a symbolic subset over '
+        '1..65536 with at most 4 non-empty reads), allowed_formats = all, or a symbolic subset over '
         '{raw, the offset-0 format, gpt, iso}',
         'no-revision': 'format sampled after every read',
         'outside': 'arbitrary bytes at the signature positions (the '
